@@ -826,6 +826,18 @@ def to_const_poly(e: expr.Expr) -> ConstantPolynomial:
 def normalize_constant(e):
     return from_const_poly(to_const_poly(e))
 
+def on_principal_branch(func_name: str, x: expr.Expr, conds: Conditions) -> bool:
+    """Whether the conditions place x in the range of atan (resp. acot)."""
+    from integral.interval import Interval
+    if func_name == "atan":
+        branch = Interval.open(-(expr.pi / 2), expr.pi / 2)
+    else:
+        branch = Interval.open(expr.Const(0), expr.pi)
+    try:
+        return conds.get_bounds_for_expr(x).contained_in(branch)
+    except (NotImplementedError, TypeError, ValueError, ZeroDivisionError):
+        return False
+
 def to_poly(e: expr.Expr, conds: Conditions) -> Polynomial:
     """Convert expression to polynomial."""
     if e.is_var():
@@ -906,8 +918,9 @@ def to_poly(e: expr.Expr, conds: Conditions) -> Polynomial:
 
     elif e.is_fun() and e.func_name in ("asin", "acos", "atan", "acot", "acsc", "asec"):
         a, = e.args
-        if e.func_name in ("atan", "acot") and a.is_fun() and a.func_name == e.func_name[1:]:
-            # atan(tan(x)) = x
+        if e.func_name in ("atan", "acot") and a.is_fun() and a.func_name == e.func_name[1:] and \
+                on_principal_branch(e.func_name, a.args[0], conds):
+            # atan(tan(x)) = x for x in (-pi/2, pi/2), acot(cot(x)) = x for x in (0, pi)
             return to_poly(a.args[0], conds)
         else:
             return singleton(expr.Fun(e.func_name, normalize(a, conds)), conds)
